@@ -72,6 +72,34 @@ type runner struct {
 	nchild   int
 	mu       sync.Mutex
 	agg      *Agg
+	// known holds the class keys of the listed findings; unlisted counts the
+	// violations with any other key.  A tree that violates in a large share of
+	// the cases (every stalled case costs seconds and a child) must not keep a
+	// check busy for an hour: once stopAfter unlisted violations are in, the
+	// verdict is decided and the rest of the case list is not started.
+	known    map[string]finding
+	unlisted int
+	stopped  bool
+}
+
+const stopAfter = 60
+
+// noteViol is called with r.mu held.
+func (r *runner) noteViol(vs ...Violation) {
+	for _, v := range vs {
+		if _, ok := r.known[v.Key]; !ok {
+			r.unlisted++
+		}
+	}
+	if r.unlisted >= stopAfter {
+		r.stopped = true
+	}
+}
+
+func (r *runner) stop() bool {
+	r.mu.Lock()
+	defer r.mu.Unlock()
+	return r.stopped
 }
 
 func (r *runner) childExe() string {
@@ -84,6 +112,9 @@ func (r *runner) childExe() string {
 // runChild runs cases [from,to) in one child, resuming after deaths.
 func (r *runner) runRange(from, to int, witness string, repeats int) {
 	for from < to || witness != "" {
+		if witness == "" && r.stop() {
+			return
+		}
 		r.mu.Lock()
 		r.nchild++
 		n := r.nchild
@@ -183,6 +214,7 @@ func (r *runner) addIncon(s string) {
 func (r *runner) addViol(v Violation) {
 	r.mu.Lock()
 	r.agg.Viol = append(r.agg.Viol, v)
+	r.noteViol(v)
 	r.mu.Unlock()
 }
 
@@ -219,6 +251,7 @@ func (r *runner) absorbOut(path string, from int) (upto int, finished bool) {
 			r.agg.Counts[k] += v
 		}
 		r.agg.Viol = append(r.agg.Viol, m.Viol...)
+		r.noteViol(m.Viol...)
 		for _, s := range m.Sample {
 			if len(r.agg.Samples) < 6 {
 				r.agg.Samples = append(r.agg.Samples, s)
@@ -465,6 +498,7 @@ func Main(p *Prop) {
 	for _, f := range finds {
 		known[f.Key] = f
 	}
+	r.known = known
 
 	// ---- replay mode
 	if *replay != "" {
@@ -529,6 +563,11 @@ func Main(p *Prop) {
 		}
 	}
 	witnessEvals := r.agg.Evaluations
+	r.unlisted, r.stopped = 0, false // (a witness failing differently is reported, but does not stop the exploration)
+	for _, v := range r.agg.Viol {
+		r.noteViol(v)
+	}
+	r.stopped = false
 	r.agg.Evaluations = 0
 	r.agg.Samples = nil
 
@@ -563,7 +602,7 @@ func Main(p *Prop) {
 			}
 		}()
 	}
-	for a := lo; a < hi; a += chunk {
+	for a := lo; a < hi && !r.stop(); a += chunk {
 		b := a + chunk
 		if b > hi {
 			b = hi
@@ -572,6 +611,10 @@ func Main(p *Prop) {
 	}
 	close(ch)
 	wg.Wait()
+	if r.stop() {
+		fmt.Printf("NOTE exploration stopped early: %d violations outside the listed findings were in after %d of %d cases (verdict decided; the remaining cases were not run)\n", r.unlisted, r.agg.Evaluations, hi-lo)
+		r.agg.Counts["exploration_stopped_early_after_unlisted_violations"] = int64(r.unlisted)
+	}
 
 	// ---- a second look at inconclusive cases.  A wall-clock wait that expired
 	// (watchdog, a yield point not reached in time, a peer not answering in
